@@ -318,6 +318,25 @@ def replay(path):
                 bad = True
             if bad:
                 break
+        if not bad and 'reused' in oid:
+            # the symbolic model only says "some history": a seeded search over random histories of heavier
+            # errors on the same code (state left in an engine typically needs a non-trivial earlier decode)
+            rg = np.random.default_rng(11)
+            model = PauliErrorModel(rx, ry, 1 - rx - ry)
+            n_pairs = 0
+            for _ in range(300):
+                a = (rg.random(2 * code.n) < 0.15).astype(np.uint8)
+                b = (rg.random(2 * code.n) < 0.15).astype(np.uint8)
+                dec = mk()
+                dec.decode(code.measure_syndrome(a))
+                r1 = np.asarray(dec.decode(code.measure_syndrome(b))).copy()
+                r2 = np.asarray(mk().decode(code.measure_syndrome(b))).copy()
+                n_pairs += 1
+                if (r1 != r2).any():
+                    print('random history', a.tolist(), 'then', b.tolist(), ': reused', r1.tolist(), 'fresh', r2.tolist())
+                    bad = True
+                    break
+            print('random histories tried:', n_pairs)
     except Exception as ex:
         print('exception on replay:', type(ex).__name__, ex)
         bad = True
